@@ -39,9 +39,11 @@ NS = importlib.import_module('pyglove.ext.evolution.nsga2')
 
 TIERS = {
     'quick': dict(shards=8, cases=18, apps=14, kpoint_extra=3, conflict_extra=4,
-                  max_pop=8, algos=0.2, timeout_s=900, case_timeout_s=600),
+                  max_pop=8, algos=0.2, histories=2, timeout_s=900,
+                  case_timeout_s=600),
     'thorough': dict(shards=16, cases=160, apps=20, kpoint_extra=3, conflict_extra=5,
-                     max_pop=12, algos=0.3, timeout_s=5400, case_timeout_s=900),
+                     max_pop=12, algos=0.3, histories=4, timeout_s=5400,
+                     case_timeout_s=900),
 }
 RULE = ('case = one random search space (gen/spaces.random_space with floats, '
         'custom points, names, literals, conditional multi-choices, plus '
@@ -61,13 +63,25 @@ RULE = ('case = one random search space (gen/spaces.random_space with floats, '
         'crossovers of the two most different parents and (in place of as many '
         'of the `apps`) `conflict_extra` seeded point-wise recombinations of the parents that conflict most on '
         'a constrained multi-choice; sometimes a full nsga2 / '
-        'regularized_evolution run. Each application is run probed (every node '
+        'regularized_evolution run; then `histories` operator histories: a '
+        'seeded operator (every seeded mutator / recombinator / selector '
+        'class, permutation recombinators preferred when the space has >= 2 '
+        'permutation points; or selector >> generator, generator.with_prob) is '
+        'constructed with some parameters, called, and brought to other '
+        'parameters by 1..3 chains of rebind (one call or field by field) / '
+        'attribute assignment / clone(deep or shallow, with override) / JSON '
+        'round trip, each chain followed by 2..3 calls that are compared with '
+        'the same calls of a freshly constructed operator with the final '
+        'parameters; every other history runs on a dedicated small space with '
+        '2..3 top-level permutation points, single choices, a constrained '
+        'multi-choice and a float, on which every random draw of every seeded '
+        'family matters. Each application is run probed (every node '
         'wrapped, all monitors) and bare (as a user writes it) under different '
         'global RNG states; the state of the global RNG is compared before and '
         'after every node and every bare run. Non-trivial = the space has a multi-choice or a '
         'conditional sub-space and at least half of the applications produced '
         'a checked output; distinct by (space, operator sequence).')
-REQUIRED_COUNTERS = ['member_checks', 'aligned_checks', 'view_checks',
+REQUIRED_COUNTERS = ['history_checks', 'member_checks', 'aligned_checks', 'view_checks',
                      'selector_identity_checks', 'selector_count_checks',
                      'routing_checks', 'input_unchanged_checks',
                      'determinism_checks', 'global_rng_checks',
@@ -83,6 +97,7 @@ ASSUMPTIONS = [
     'conflicting parents are produced by a harness-side sampler and verified against the membership reference before use',
     'segment-wise crossovers are additionally compared with their documented cutting semantics (Segmented: exact children; KPoint: complementary children with exactly min(k, L-1) cuts)',
     'the exact set algebra of | & - ^ on duplicate-carrying operands is not judged (only routing by identity)',
+    'histories: an operator whose seeds were all just assigned (rebind / assignment / clone override: the object then reports the new seeds), or that was just deserialised, is a function of these seeds and its inputs, i.e. equal to a fresh operator with the same parameters; whether any other transformation (a rebind of a non-seed parameter, a clone without override) keeps or resets the state of a random generator that has already been drawn from is not documented: such a step is only judged on an operator that was not called since its seeds were assigned (both readings coincide), otherwise the following calls are made but not compared',
 ]
 
 FIT = B.DNA_METADATA_FITNESS
@@ -1703,13 +1718,51 @@ def permutation_elems(desc):
           and e['distinct'] and not e['sorted']]
 
 
+def gen_sensitive_space(rng):
+  """A small space on which the random draws of every seeded operator family
+  matter: 2..3 top-level permutation points (the default where filter of a
+  permutation recombinator has to choose), single choices, sometimes a
+  constrained multi-choice and a float."""
+  elems = [S.choice(n, S.consts(n), True, False, loc=f'hperm{j}')
+           for j, n in enumerate(rng.choice([[3, 4], [4, 3], [4, 4], [3, 3, 4],
+                                             [4, 2, 3]]))]
+  for j in range(rng.randint(1, 2)):
+    n = rng.choice([3, 4, 5])
+    cands = [S.space(S.choice(1, S.consts(3), loc=f'hone{j}c{ci}'))
+             if rng.random() < 0.15 else S.CONST for ci in range(n)]
+    elems.append(S.choice(1, cands, loc=f'hone{j}'))
+  if rng.random() < 0.5:
+    elems.append(S.choice(2, S.consts(4), True, rng.random() < 0.5, loc='hmany'))
+  if rng.random() < 0.4:
+    elems.append(S.floatv(-1.0, 1.0, loc='hfloat'))
+  rng.shuffle(elems)
+  return S.space(*elems)
+
+
+def sensitive_env(ctx, rng):
+  """(Env, case) over a randomness-sensitive space, or None."""
+  desc = gen_sensitive_space(rng)
+  ctx.label = 'build-spec'
+  spec = S.build(desc)
+  ctx.label = None
+  env = Env(ctx, rng, desc, spec)
+  env.make_population(rng, rng.randint(3, 4))
+  case = {'space': S.show(desc), 'population': [repr(list(m)) for m in env.members],
+          'fitness': [repr(f) for f in env.fitness]}
+  if any(check_dna(env, d, 'parent', case, 'parent', report=False) for d in env.pop):
+    ctx.counters['cases_with_invalid_parents'] += 1
+    return None
+  ctx.counters['sensitive_spaces'] += 1
+  return env, case
+
+
 def gen_subject(rng, env):
   """(expression, parent indices): a seeded operator, or a small composite
   that holds seeded operators (selector >> generator, generator.with_prob)."""
   npop = len(env.pop)
   everyone = list(range(npop))
   few = everyone if npop <= 5 else sorted(rng.sample(everyone, 5))
-  if len(permutation_elems(env.desc)) >= 2 and rng.random() < 0.5:
+  if len(permutation_elems(env.desc)) >= 2 and rng.random() < 0.35:
     fam = rng.choice(PERMUTATION)       # the where filter has to draw
   else:
     fam = rng.choice(SEEDED_LEAVES + ['pipeline', 'choice'])
@@ -1761,7 +1814,8 @@ def gen_reseed(rng, expr):
   out = {}
   for i, (_, node) in enumerate(seed_parts(expr)):
     ups = {'seed': other_than(rng, node['seed'], range(1000))}
-    if 'wseed' in node:
+    if 'wseed' in node and (node['op'] not in PERMUTATION or rng.random() < 0.5):
+      # (the filter of a permutation recombinator follows the operator's seed)
       ups['wseed'] = other_than(rng, node['wseed'], range(1000))
     out[i] = ups
   return out
@@ -1773,6 +1827,11 @@ def gen_param_update(rng, env, expr):
   parts = [(i, n) for i, (_, n) in enumerate(seed_parts(expr)) if n['k'] == 'leaf']
   i, node = rng.choice(parts)
   op = node['op']
+  if expr['k'] == 'bin' and i == 0:
+    # the pair selector of a pipeline keeps returning exactly two parents
+    if op == 'selectors.Random':
+      return {i: {'replacement': not node['replacement']}}
+    return {i: {'weights': other_than(rng, node['weights'], ['ones', 'ramp', 'stepped'])}}
   if op == 'mutators.Uniform':
     ws = ['any', 'leaf', 'categorical', 'nonroot', 'subchoice']
     return {i: {'where': other_than(rng, node['where'], ws)}}
@@ -1806,7 +1865,6 @@ def apply_updates(expr, updates):
   lib = {}
   for i, ups in sorted(updates.items(), key=lambda kv: int(kv[0])):
     prefix, node = seed_parts(expr)[int(i)]
-    before = dict(node)
     node.update(ups)
     if 'where' in ups and not str(ups['where']).startswith('any'):
       node.pop('wseed', None)
@@ -1828,7 +1886,6 @@ def apply_updates(expr, updates):
         lib[prefix + 'weights'] = WEIGHTS[v]
       else:                                  # seed, replacement
         lib[prefix + key] = v
-    del before
   return expr, lib
 
 
@@ -1987,7 +2044,7 @@ def run_history(ctx, env, expr, steps, inputs, step0, case, quiet=False):
         raise
       if not quiet:
         ctx.violation('unexpected-exception', label,
-                      f'{show(state["expr"])} after {state["chain"]}:\n'
+                      f'{show(state["expr"])} in the history {state["history"]!r:.900}:\n'
                       + ''.join(traceback.format_exception(e))[-2500:], case)
       raise HistoryEnd() from e
 
@@ -2002,14 +2059,14 @@ def run_history(ctx, env, expr, steps, inputs, step0, case, quiet=False):
       if not quiet:
         ctx.violation('unexpected-exception',
                       exception_mechanism(env, cur, e, inputs),
-                      f'{show(cur)} (history {state["chain"]}) raised at step '
-                      f'{st}:\n' + ''.join(traceback.format_exception(e))[-2500:],
+                      f'{show(cur)} (history {state["history"]!r:.900}) raised '
+                      f'at step {st}:\n' + ''.join(traceback.format_exception(e))[-2500:],
                       case)
       raise HistoryEnd() from e
     c['global_rng_checks'] += 1
     if pyrandom.getstate() != rng_state and not quiet:
       ctx.violation('global-rng-consumed', root,
-                    f'{show(cur)} (history {state["chain"]}) at step {st} drew '
+                    f'{show(cur)} (history {state["history"]!r:.900}) at step {st} drew '
                     f'from the global random module although all its random '
                     f'parameters are seeded', case)
     return out
@@ -2027,8 +2084,7 @@ def run_history(ctx, env, expr, steps, inputs, step0, case, quiet=False):
       want = signature(env, pop_ids, call(ref, cur, st, 7919 + st))
       c['history_call_checks'] += 1
       if got != want:
-        kinds = [s['kind'] for s in state['chain']]
-        return (kinds, f'{show(cur)} reached by the history '
+        return (list(state['chain']), f'{show(cur)} reached by the history '
                 f'{state["history"]!r:.900} returned {got!r:.500} at its call '
                 f'{k + 1} after the last re-seeding step (step={st}); a fresh '
                 f'operator with these parameters returned {want!r:.500} on the '
@@ -2061,14 +2117,14 @@ def run_history(ctx, env, expr, steps, inputs, step0, case, quiet=False):
     bad = flush()
     if bad:
       return bad
-    anchor = s['s'] == 'json' or reseeds_all(state['expr'], s.get('set'))
-    if anchor:
-      state['chain'] = []
+    reseed = reseeds_all(state['expr'], s.get('set'))
+    if reseed:
+      state['chain'] = []       # (a JSON round trip keeps the chain: what was
+    if reseed or s['s'] == 'json':          # serialised is part of the history)
+      state['known'], state['ncalls'] = True, 0
     elif state['ncalls']:
       state['known'] = False
-    if anchor:
-      state['known'], state['ncalls'] = True, 0
-    state['chain'].append(s)
+    state['chain'].append((s, state['expr']))
     c['history_steps:' + s['kind']] += 1
     op, cur = state['op'], state['expr']
     state['op'], state['expr'] = guarded(
@@ -2076,26 +2132,21 @@ def run_history(ctx, env, expr, steps, inputs, step0, case, quiet=False):
   return flush()
 
 
-def history_kind(ctx, env, expr, steps, kinds, inputs, step0, case):
-  """Names the transformation of a diverging chain: the first kind that
-  diverges from a fresh operator when it is the only step of a history."""
+def history_kind(ctx, env, chain, inputs, step0, case):
+  """Names the transformation of a diverging chain [(step, description before
+  it)]: the kind of the first step that diverges from a fresh operator when it
+  is the only step of a history ('combination' if none does)."""
+  kinds = [s['kind'] for s, _ in chain]
   if len(set(kinds)) == 1:
     return kinds[0]
-  cur = expr
-  for s in steps:
-    if s['s'] == 'call':
-      continue
-    if s['kind'] in kinds and (s['s'] == 'json' or s.get('set') is None
-                               or reseeds_all(cur, s['set']) or True):
-      try:
-        alone = run_history(ctx, env, cur, [s, {'s': 'call', 'n': 3}], inputs,
-                            step0, case, quiet=True)
-      except HistoryEnd:
-        alone = None
-      if alone:
-        return s['kind']
-    if s.get('set'):
-      cur, _ = apply_updates(cur, s['set'])
+  for s, before in chain:
+    try:
+      alone = run_history(ctx, env, before, [s, {'s': 'call', 'n': 3}], inputs,
+                          step0, case, quiet=True)
+    except HistoryEnd:
+      alone = None
+    if alone:
+      return s['kind']
   return 'combination'
 
 
@@ -2117,9 +2168,8 @@ def history_application(ctx, env, rng, case):
     bad = None
     c['histories_ended_early'] += 1
   if bad:
-    kinds, detail = bad
-    kind = (history_kind(ctx, env, expr, steps, kinds, inputs, step0, case)
-            if kinds else None)
+    chain, detail = bad
+    kind = history_kind(ctx, env, chain, inputs, step0, case) if chain else None
     mech = nondet_mechanism(expr) if expr['k'] == 'leaf' else root
     if kind:
       mech = f'{root}:history-{kind}'
@@ -2197,6 +2247,16 @@ def run_case(ctx, i):
       ops_seen.append(expr['op'])
   if rng.random() < float(ctx.params['algos']):
     run_algorithm(ctx, env, rng, case)
+  # operator histories (drawn last: the applications above keep their stream)
+  # half of them on a dedicated space on which every random draw matters
+  sensitive = None
+  for h in range(int(ctx.params.get('histories', 0))):
+    if h % 2 == 0:
+      sensitive = sensitive or sensitive_env(ctx, rng)
+      if sensitive:
+        history_application(ctx, sensitive[0], rng, sensitive[1])
+        continue
+    ops_seen.append('history:' + history_application(ctx, env, rng, case))
   rich = any(e['t'] == 'choice' and (e['k'] > 1 or any(cd['elems'] for cd in e['cands']))
              for e in desc['elems'])
   if rich and productive * 2 >= napps:
